@@ -233,6 +233,47 @@ def rule_iter(ctx, rep):
                             ("X", "SELF", 0): {"V0"}, ("X", "SELF", "X"): {"V0"}, ("X", "X", 0): {"V0"}, ("X", "X", "X"): {"V0"}}
     fst = lambda blocking: {(0, "SELF", 0): {0}, (0, "SELF", "X"): {0}, (0, "X", 0): (set() if blocking else {WB}), (0, "X", "X"): {"V2"},
                             ("X", "SELF", 0): (set() if blocking else {WB}), ("X", "SELF", "X"): {"V2"}, ("X", "X", 0): (set() if blocking else {WB}), ("X", "X", "X"): {"V2"}}
+    # splice: classes of (source head.next, source tail->p, exchanged-out source head.next, re-loaded source tail->p,
+    # exchanged-out destination tail).  The DEST_EMPTY / DEST_NON_EMPTY result is what the *append exchange* on the destination
+    # tail observed (its linearisation point) - not an emptiness sample taken earlier.
+    import itertools
+
+    def spl(blocking):
+        t = {}
+        for a, b, c, d, e in itertools.product((0, "X"), ("SELF", "X"), (0, "X"), ("SELF", "X"), ("SELF", "X")):
+            if a == 0 and b == "SELF":
+                r = {2}                                   # CDS_WFCQ_RET_SRC_EMPTY (fast path)
+            elif c != 0:
+                r = {0} if e == "SELF" else {1}           # DEST_EMPTY iff the append found the destination tail at its head node
+            elif d == "SELF":
+                r = {2}                                   # nothing grabbed and the source turned out empty
+            else:
+                r = set() if blocking else {WB}           # enqueue in flight on the source: wait / WOULDBLOCK
+            t[(a, b, c, d, e)] = r
+        return t
+    for name, exp in (("__cds_wfcq_splice_nonblocking", spl(False)), ("__cds_wfcq_splice_blocking", spl(True))):
+        f = m.fn(name)
+        pat.require(f is not None, name + " vanished")
+        # def-use form of the same clause (decides even when the set of decision variables changed): DEST_EMPTY(0) /
+        # DEST_NON_EMPTY(1) are returned exactly on the edges where the exchange on the destination tail returned / did not
+        # return the destination's head node
+        dx = [e for e in pat.accesses(f, None, ("xchg",)) if e.ap and e.ap["base"] == ["a", 1]]
+        pat.require(len(dx) == 1, "%s: exchange on the destination tail" % name)
+        n01 = 0
+        for _p, atoms, v in paths.ret_cases(f):
+            if v in (("c", 0), ("c", 1)):
+                n01 += 1
+                want = "eq" if v[1] == 0 else "ne"
+                ok = any(a[0] == want and a[1][0] == "asm" and a[1][-1] == dx[0].inst.id and a[2][0] == "addr" and a[2][1].startswith("arg0.") for a in atoms)
+                rep.check(ok, "C10.splice", "%s.ret%d-from-append" % (name, v[1]), "DEST_%s is reported iff the append exchange on the destination tail says so" % ("EMPTY" if v[1] == 0 else "NON_EMPTY"),
+                          "splice returns %d on a path not decided by the value its exchange on the destination tail returned: the `destination was empty` result can disagree with the "
+                          "order in which enqueues/dequeues on the destination took effect (lost or duplicate wake-up)" % v[1], [dx[0].inst.where()])
+        pat.require(n01 >= 2, "%s: DEST_EMPTY / DEST_NON_EMPTY returns" % name)
+        try:
+            dtable.compare(rep, "C10.iter", name, f, exp, "splice result over the classes of the words it reads/exchanges")
+        except Broken as e:
+            if not any(r["rule"] == "C10.splice" and r["status"] == "violation" and name in r["instance"] for r in rep.results):
+                raise
     for name, exp in (("__cds_wfcq_next_nonblocking", nxt(False)), ("__cds_wfcq_next_blocking", nxt(True)),
                       ("__cds_wfcq_first_nonblocking", fst(False)), ("__cds_wfcq_first_blocking", fst(True))):
         f = m.fn(name)
